@@ -35,7 +35,7 @@ namespace dllexports
         void* call_data;
         sqfvm_log_callback callback;
 
-        target() : Logger() {}
+        target() : Logger(), user_data(nullptr), call_data(nullptr), callback(nullptr) {}
     };
     struct instance
     {
@@ -125,7 +125,7 @@ namespace dllexports
     {
         auto actual = reinterpret_cast<instance*>(in);
 
-        if (actual->seq[0] == 'S' && actual->seq[1] == 'Q' && actual->seq[2] == 'F' && actual->seq[3] == 'E')
+        if (in && actual->seq[0] == 'S' && actual->seq[1] == 'Q' && actual->seq[2] == 'F' && actual->seq[3] == 'E')
         {
             actual->seq[0] = '\0';
             actual->seq[1] = '\0';
@@ -171,6 +171,8 @@ extern "C" {
         const int32_t parsing_failed = -3;
         const int32_t result_ok = 0;
         auto result = dllexports::with_instance_do(instance, [&](dllexports::instance& ref) -> int32_t {
+            // no call data belongs to this function: do not deliver the pointer of some earlier sqfvm_call
+            ref.logger->call_data = nullptr;
             auto ppedStr = ref.runtime->parser_preprocessor().preprocess(
                 *ref.runtime, std::string_view(contents, length), { "dllexports"sv, {} });
 
